@@ -27,6 +27,7 @@ func init() {
 		typedNilRule(c, "C13.typednil")
 		nilErrRule(c, "C13.nilerr")
 		handedMapRule(c, "C13.handedmap")
+		nilReceiverRule(c, "C13.nilrecv")
 		c.Floor("C13.bounds", c.CountRule("C13.bounds"), 40)
 		c.Floor("C13.divzero", c.CountRule("C13.divzero"), 10)
 		c.Floor("C13.okdrop", c.CountRule("C13.okdrop"), 40)
